@@ -1,7 +1,265 @@
-// unit "interp" and friends: src/interpreter.h (heavy translation unit)
+// unit "interp": one Interpreter::Run(1) on the real Teakra facade from a constructed state.
+#include <cstring>
+#include <unordered_map>
 #include "h.hpp"
 #include "interpreter.h"
+#include "shared_memory.h"
+#include "teakra/teakra.h"
 
 bool IsUnimplemented(const std::exception& e) {
     return dynamic_cast<const Teakra::UnimplementedException*>(&e) != nullptr;
 }
+
+namespace {
+using Teakra::RegisterState;
+
+// The Shadow* helper classes keep their copies in private members; they are plain sequences of
+// u16 (checked by the static_asserts below), so the harness reads them by position.
+static_assert(sizeof(RegisterState::shadow_registers) == 10 * sizeof(u16), "ShadowRegisterList layout changed");
+static_assert(sizeof(RegisterState::shadow_swap_registers) == 32 * sizeof(u16), "ShadowSwapRegisterList layout changed");
+static_assert(sizeof(RegisterState::shadow_swap_ar0) == 6 * sizeof(u16), "ShadowSwapAr layout changed");
+static_assert(sizeof(RegisterState::shadow_swap_arp0) == 6 * sizeof(u16), "ShadowSwapArp layout changed");
+
+u16& ShadowFlag(RegisterState& r, int k) { return reinterpret_cast<u16*>(&r.shadow_registers)[k]; }
+u16* SwapBase(RegisterState& r) { return reinterpret_cast<u16*>(&r.shadow_swap_registers); }
+u16& ShadowSwap_pcmhi(RegisterState& r) { return SwapBase(r)[0]; }
+u16& ShadowSwap_sat(RegisterState& r) { return SwapBase(r)[1]; }
+u16& ShadowSwap_sata(RegisterState& r) { return SwapBase(r)[2]; }
+u16& ShadowSwap_hwm(RegisterState& r) { return SwapBase(r)[3]; }
+u16& ShadowSwap_s(RegisterState& r) { return SwapBase(r)[4]; }
+u16* ShadowSwap_ps(RegisterState& r) { return SwapBase(r) + 5; }
+u16& ShadowSwap_page(RegisterState& r) { return SwapBase(r)[7]; }
+u16& ShadowSwap_stp16(RegisterState& r) { return SwapBase(r)[8]; }
+u16& ShadowSwap_cmd(RegisterState& r) { return SwapBase(r)[9]; }
+u16* ShadowSwap_m(RegisterState& r) { return SwapBase(r) + 10; }
+u16* ShadowSwap_br(RegisterState& r) { return SwapBase(r) + 18; }
+u16* ShadowSwap_im(RegisterState& r) { return SwapBase(r) + 26; }
+u16& ShadowSwap_imv(RegisterState& r) { return SwapBase(r)[29]; }
+u16& ShadowSwap_epi(RegisterState& r) { return SwapBase(r)[30]; }
+u16& ShadowSwap_epj(RegisterState& r) { return SwapBase(r)[31]; }
+struct ArSh { u16 rni, rnj, stepi, stepj, offseti, offsetj; };
+ArSh& ShadowAr(RegisterState& r, int i) {
+    return *reinterpret_cast<ArSh*>(i == 0 ? (void*)&r.shadow_swap_ar0 : (void*)&r.shadow_swap_ar1);
+}
+ArSh& ShadowArp(RegisterState& r, int i) {
+    void* p = i == 0 ? (void*)&r.shadow_swap_arp0 : i == 1 ? (void*)&r.shadow_swap_arp1
+            : i == 2 ? (void*)&r.shadow_swap_arp2 : (void*)&r.shadow_swap_arp3;
+    return *reinterpret_cast<ArSh*>(p);
+}
+#include "flat.gen.h"
+
+u64 SplitMix(u64 x) {
+    u64 z = x + 0x9E3779B97F4A7C15ull;
+    z = (z ^ (z >> 30)) * 0xBF58476D1CE4E5B9ull;
+    z = (z ^ (z >> 27)) * 0x94D049BB133111EBull;
+    return z ^ (z >> 31);
+}
+
+struct Fnv {
+    u64 h = 0xcbf29ce484222325ull;
+    void Add(u64 v) {
+        for (int i = 0; i < 8; ++i) {
+            h ^= (v >> (8 * i)) & 0xFF;
+            h *= 0x100000001b3ull;
+        }
+    }
+};
+
+struct InterpUnit;
+InterpUnit* g_unit = nullptr;
+
+struct InterpUnit {
+    std::unique_ptr<Teakra::Teakra> t;
+    u64 bg_seed = 0;
+    bool bg_on = false;
+    // words materialised / written during the current case: word address -> original raw bytes
+    std::unordered_map<u32, u16> saved;
+    std::vector<std::pair<u32, std::pair<bool, u16>>> log;  // byte address, (is_write, value)
+    bool oob = false;
+
+    InterpUnit() {
+        g_unit = this;
+        Fresh();
+    }
+    void Fresh() {
+        t = std::make_unique<Teakra::Teakra>(Teakra::UserConfig{});
+        t->Reset();  // also defines the ShadowSwapAr/Arp members the constructor leaves uninitialised
+        t->SetAudioCallback([](std::array<s16, 2>) {});
+        for (int i = 0; i < 3; ++i) t->SetRecvDataHandler(i, [] {});
+        t->SetSemaphoreHandler([] {});
+        Teakra::AHBMCallback cb;
+        cb.read8 = [](u32) -> u8 { return 0; };
+        cb.write8 = [](u32, u8) {};
+        cb.read16 = [](u32) -> u16 { return 0; };
+        cb.write16 = [](u32, u16) {};
+        cb.read32 = [](u32) -> u32 { return 0; };
+        cb.write32 = [](u32, u32) {};
+        t->SetAHBMCallback(cb);
+        TeakraVerifMemHook = &Hook;
+    }
+    static u16 Bg(u64 seed, u32 wa) { return (u16)SplitMix(seed * 0x100000 + wa); }
+
+    void Touch(u32 wa) {
+        if (saved.count(wa)) return;
+        u8* raw = t->GetDspMemory();
+        u16 old = raw[wa * 2] | (raw[wa * 2 + 1] << 8);
+        saved[wa] = old;
+        if (bg_on) {
+            u16 v = Bg(bg_seed, wa);
+            raw[wa * 2] = v & 0xFF;
+            raw[wa * 2 + 1] = v >> 8;
+        }
+    }
+    static bool Hook(u32 byte_address, bool is_write, u16 value) {
+        InterpUnit& u = *g_unit;
+        u.log.push_back({byte_address, {is_write, value}});
+        if ((u64)byte_address + 1 >= 0x80000) {
+            u.oob = true;
+            throw std::string("oob");
+        }
+        u.Touch(byte_address / 2);
+        return true;
+    }
+    void RestoreMem() {
+        u8* raw = t->GetDspMemory();
+        for (auto& kv : saved) {
+            raw[kv.first * 2] = kv.second & 0xFF;
+            raw[kv.first * 2 + 1] = kv.second >> 8;
+        }
+        saved.clear();
+        log.clear();
+        oob = false;
+    }
+    void Poke(u32 wa, u16 v) {
+        Touch(wa);
+        u8* raw = t->GetDspMemory();
+        raw[wa * 2] = v & 0xFF;
+        raw[wa * 2 + 1] = v >> 8;
+    }
+
+    // `gen`: the same draw procedure as Drive/Interp.lean genState
+    void Gen(u64 seed) {
+        RegisterState& r = t->GetRegisterState();
+        u64 s = seed;
+        auto next = [&s]() { s += 1; return SplitMix(s * 0x2545F4914F6CDD1Dull + 0x1234567); };
+        for (int i = 0; i < kFlatCount; ++i) {
+            const FlatField& f = kFlat[i];
+            u64 v = next();
+            u64 val = 0;
+            std::string k = f.kind;
+            if (k == "z") val = 0;
+            else if (k[0] == 'c') val = std::stoull(k.substr(1));
+            else if (k == "acc") {
+                u64 x = next();
+                unsigned sel = v & 7;
+                if (sel == 0) val = 0;
+                else if (sel < 4) val = (u64)(s64)(s32)(u32)x;                 // fits 32 bits
+                else val = (x & 0x8000000000ull) ? (x | 0xFFFFFF0000000000ull) : (x & 0xFFFFFFFFFFull);
+            } else {
+                u64 mask = f.width >= 64 ? ~0ull : ((1ull << f.width) - 1);
+                unsigned sel = v & 7;
+                u64 x = (v >> 8) & mask;
+                if (sel == 0) val = 0;
+                else if (sel == 1) val = mask;
+                else if (sel == 2) val = 1ull << (f.width - 1);
+                else if (sel == 3) val = (1ull << (f.width - 1)) - 1;
+                else val = x;
+                if (k == "pc" && val > 0x3FFF0) val -= 0x10;
+            }
+            f.set(r, val);
+        }
+    }
+
+    std::string DumpAll() {
+        RegisterState& r = t->GetRegisterState();
+        Out o;
+        for (int i = 0; i < kFlatCount; ++i) o << kFlat[i].get(r);
+        return o.s;
+    }
+    u64 RegDigest() {
+        RegisterState& r = t->GetRegisterState();
+        Fnv f;
+        for (int i = 0; i < kFlatCount; ++i) f.Add(kFlat[i].get(r));
+        return f.h;
+    }
+    u64 LogDigest() {
+        Fnv f;
+        for (auto& e : log) {
+            f.Add(e.first);
+            f.Add(e.second.first);
+            f.Add(e.second.second);
+        }
+        return f.h;
+    }
+
+    std::string Do(const Args& a) {
+        if (a.empty()) throw std::string("bad-op");
+        const std::string& op = a[0];
+        RegisterState& r = t->GetRegisterState();
+        if (op == "new") { RestoreMem(); Fresh(); return "ok"; }
+        if (op == "gen" && a.size() == 2) {   // resync: registers from seed, memory background from seed
+            RestoreMem();
+            bg_seed = H(a[1]);
+            bg_on = true;
+            Gen(bg_seed);
+            return "ok";
+        }
+        if (op == "set" && (int)a.size() == kFlatCount + 1) {
+            RestoreMem();
+            bg_on = false;
+            for (int i = 0; i < kFlatCount; ++i) kFlat[i].set(r, H(a[i + 1]));
+            return "ok";
+        }
+        if (op == "poke" && a.size() == 3) {  // poke <field name|index> <value>
+            for (int i = 0; i < kFlatCount; ++i)
+                if (a[1] == kFlat[i].name) { kFlat[i].set(r, H(a[2])); return "ok"; }
+            throw std::string("bad-op");
+        }
+        if (op == "mem" && a.size() == 3) { Poke((u32)H(a[1]), (u16)H(a[2])); return "ok"; }
+        if (op == "peek" && a.size() == 2) {
+            u32 wa = (u32)H(a[1]);
+            Touch(wa);
+            u8* raw = t->GetDspMemory();
+            return Hex(raw[wa * 2] | (raw[wa * 2 + 1] << 8));
+        }
+        if (op == "dump") return DumpAll();
+        if ((op == "step" || op == "stepv") && a.size() == 3) {
+            // place opcode + expansion at pc, run exactly one cycle
+            u32 pc = r.pc | ((u32)r.prpage << 18);
+            if (pc + 1 < 0x40000) {
+                Poke(pc, (u16)H(a[1]));
+                Poke(pc + 1, (u16)H(a[2]));
+            }
+            log.clear();
+            try {
+                t->Run(1);
+            } catch (...) {
+                throw;
+            }
+            if (op == "stepv") return "ok " + DumpAll() + " | " + LogText();
+            Out o;
+            o << "ok" << RegDigest() << LogDigest() << (u64)log.size();
+            return o.s;
+        }
+        if (op == "run" && a.size() == 2) {
+            log.clear();
+            t->Run((unsigned)H(a[1]));
+            Out o;
+            o << "ok" << RegDigest() << LogDigest() << (u64)log.size();
+            return o.s;
+        }
+        if (op == "log") return LogText();
+        throw std::string("bad-op");
+    }
+    std::string LogText() {
+        Out o;
+        for (auto& e : log) o << (e.second.first ? "w" : "r") << e.first << e.second.second;
+        return o.s;
+    }
+};
+InterpUnit* unit = nullptr;
+Registrar reg("interp", [](const Args& a) {
+    if (!unit) unit = new InterpUnit();
+    return unit->Do(a);
+});
+} // namespace
